@@ -229,6 +229,12 @@ class CSetOp(object):
                 if isinstance(a, tuple) and a[0] == "call<0":
                     return int({"<": False, ">=": True, "==": True, "!=": False}[op]) \
                         if b == 0 else 0
+                # a live object compared with NULL
+                for x, y in ((a, b), (b, a)):
+                    if isinstance(y, int) and y == 0 and (
+                            isinstance(x, (Result, Cursor)) or
+                            (isinstance(x, tuple) and x and x[0] in ("obj", "tuple"))) and op in ("==", "!="):
+                        return int(op == "!=")
                 if isinstance(a, tuple) and isinstance(b, tuple):
                     if a[0] == "obj" and b == ("none",):
                         n = self.sit.noneA if a[1] == "A" else self.sit.noneB
@@ -344,6 +350,12 @@ class CSetOp(object):
                 return 1
             if n in ("Py_INCREF", "Py_DECREF", "Py_XDECREF", "finiSetIteration", "PyErr_SetString"):
                 return 0
+            if n == "Py_TYPE" and len(args) == 1:
+                o = self.ev(args[0], env)
+                if isinstance(o, Result):
+                    return ("type", o.kind)
+                if isinstance(o, tuple) and o and o[0] == "obj":
+                    return ("type?",)
             if n == "PyErr_Occurred":
                 return 0
             if n == "Bucket_grow":
